@@ -1,0 +1,24 @@
+// SPDX-FileCopyrightText: 2026 The Pion community <https://pion.ly>
+// SPDX-License-Identifier: MIT
+
+//go:build verif
+
+package mux
+
+import "sync/atomic"
+
+var verifYieldFn atomic.Value // func(string)
+
+// VerifSetYield installs (or with nil removes) the callback invoked at verifYield points.
+func VerifSetYield(fn func(label string)) {
+	if fn == nil {
+		fn = func(string) {}
+	}
+	verifYieldFn.Store(fn)
+}
+
+func verifYield(label string) {
+	if fn, ok := verifYieldFn.Load().(func(string)); ok {
+		fn(label)
+	}
+}
